@@ -124,7 +124,7 @@ def fold(prog, rr):
 
 
 # --------------------------------------------------------------------------------------- NM2
-@rule("NM2", ["C01", "C04"], "constraint statement models keep no derived state between calls (no memo of expansions)", engine="EFF", floor=10)
+@rule("NM2", ["C01", "C04", "C15"], "constraint statement models keep no derived state between calls (no memo of expansions)", engine="EFF", floor=10)
 def nm2(prog, rr):
     from tables.exceptions import NM2_STATEFUL
     cm = prog.cls("ConstraintModel")
@@ -146,7 +146,7 @@ def nm2(prog, rr):
 
 
 # --------------------------------------------------------------------------------------- LW11
-@rule("LW11", ["C02", "C04", "C01", "C15"], "the constraint copier copies every expression operand and fills the matching branch", engine="DF", floor=8)
+@rule("LW11", ["C02", "C04", "C01", "C15", "C05"], "the constraint copier copies every expression operand and fills the matching branch", engine="DF", floor=8)
 def lw11(prog, rr):
     cb = prog.cls("ConstraintCopyBuilder")
     leaf_passthrough = {"visit_expr_fieldref", "visit_expr_literal", "visit_expr_indexed_fieldref"}
@@ -165,6 +165,21 @@ def lw11(prog, rr):
                         rr.finding(f, n, "ConstraintCopyBuilder." + name, "LW11: the copy is built from the original's own '%s' instead of self.expr(%s): inside a foreach "
                                    "the un-copied operand still refers to the index variable and is resolved when the solver nodes are built, i.e. with the "
                                    "index's last value for every unrolled element" % (t, t))
+        # (1b) a statement whose class takes a condition / expression in its constructor is copied by re-building that operand with
+        #      self.expr(...); clone() would share the original's operand
+        if name.startswith("visit_constraint_") and f.node.args.args[1].annotation is not None:
+            cn = (dotted(f.node.args.args[1].annotation) or "").split(".")[-1]
+            if prog.has_cls(cn):
+                init = prog.cls(cn).methods.get("__init__")
+                ops = [a for a in (init.params[1:] if init else []) if a in ("cond", "e", "expr")]
+                for a in ops:
+                    copied = any(isinstance(n, ast.Call) and norm(n.func) == "self.expr" and n.args and norm(n.args[0]) == "%s.%s" % (p, a)
+                                 for n in walk_local(f.node))
+                    cloned = [n for n in walk_local(f.node) if isinstance(n, ast.Call) and norm(n.func) == p + ".clone"]
+                    if not copied and cloned:
+                        rr.finding(f, cloned[0], "ConstraintCopyBuilder." + name, "LW11: the %s statement is copied with %s.clone(), which keeps the original's '%s' "
+                                   "expression: inside a foreach every unrolled copy is then guarded by the un-expanded condition, evaluated with the "
+                                   "index's last value" % (cn, p, a), text="clone keeps %s" % a)
         # (2) ConstraintCollector slots: the branch collected into ret.X is the source's X
         for w in walk_local(f.node):
             if not isinstance(w, ast.With):
@@ -186,7 +201,7 @@ def lw11(prog, rr):
 
 
 # --------------------------------------------------------------------------------------- RN7
-@rule("RN7", ["C03"], "a field solved or drawn in a call is locked again (set_used_rand(False)) before the call ends", engine="SAI", floor=2)
+@rule("RN7", ["C03", "C06"], "a field solved or drawn in a call is locked again (set_used_rand(False)) before the call ends", engine="SAI", floor=2)
 def rn7(prog, rr):
     f = prog.method("Randomizer", "randomize")
     # (a) unconstrained draw loop
@@ -208,7 +223,7 @@ def rn7(prog, rr):
                     return [(FALL, st._replace(u=(drawn, True)), None)]
                 return [(FALL, st, None)]
         fake = ast.FunctionDef(name="body", args=f.node.args, body=lp.body, decorator_list=[], lineno=lp.lineno, col_offset=0)
-        outs = Interp(D(), func=f).run(fake)
+        outs = Interp(D(), func=f).run(fake, loop_body=True)
         rr.inst("unconstrained loop over %s: %d paths" % (norm(lp.iter), len(outs.fall)))
         if any(d and not l for d, l in (s.u for s in outs.fall)):
             rr.finding(f, lp, "Randomizer.randomize", "RN7: an unconstrained field is drawn but not locked afterwards (set_used_rand(False)): its used-as-random flag stays on "
